@@ -80,23 +80,34 @@ void UndoHistory::showHistory(void) const
 static char tmp[256];
 void UndoHistoryImpl::rewind(const char *msg)
 {
-    memset(tmp, 0, sizeof(tmp));
     rtosc_arg_t arg = rtosc_argument(msg,1);
-    rtosc_amessage(tmp, 256, rtosc_argument(msg,0).s,
-            rtosc_argument_string(msg)+2,
-            &arg);
-    cb(tmp);
+    const char *addr  = rtosc_argument(msg,0).s;
+    const char *types = rtosc_argument_string(msg)+2;
+    //the set-message of a long address does not fit the static buffer
+    size_t len = rtosc_amessage(NULL, 0, addr, types, &arg);
+    char  *buf = len > sizeof(tmp) ? new char[len] : tmp;
+    size_t cap = len > sizeof(tmp) ? len : sizeof(tmp);
+    memset(buf, 0, cap);
+    rtosc_amessage(buf, cap, addr, types, &arg);
+    cb(buf);
+    if(buf != tmp)
+        delete [] buf;
 }
 
 void UndoHistoryImpl::replay(const char *msg)
 {
     rtosc_arg_t arg = rtosc_argument(msg,2);
-    int len = rtosc_amessage(tmp, 256, rtosc_argument(msg,0).s,
-            rtosc_argument_string(msg)+2,
-            &arg);
+    const char *addr  = rtosc_argument(msg,0).s;
+    const char *types = rtosc_argument_string(msg)+2;
+    size_t need = rtosc_amessage(NULL, 0, addr, types, &arg);
+    char  *buf = need > sizeof(tmp) ? new char[need] : tmp;
+    size_t cap = need > sizeof(tmp) ? need : sizeof(tmp);
+    int len = rtosc_amessage(buf, cap, addr, types, &arg);
     
     if(len)
-        cb(tmp);
+        cb(buf);
+    if(buf != tmp)
+        delete [] buf;
 }
 
 const char *getUndoAddress(const char *msg)
